@@ -592,6 +592,14 @@ func (c *Checker) check15(st *State, o *Obs, out *ref.StepOut, died bool) {
 			}
 		}
 	}
+	// a read report names one of the two cells the instruction's operands read
+	for _, r := range o.Reports[popAt+1:] {
+		if r.Type == g.WarriorRead && uint64(r.Address) != out.RAB && uint64(r.Address) != out.RPB {
+			if rep.Hit("C15", "read-report-address") {
+				rep.Add("C15", "read-report-address", st.String(), fmt.Sprintf("read reported at %d; the operands of the instruction read cells %d and %d", r.Address, out.RAB, out.RPB))
+			}
+		}
+	}
 	may := map[uint64]bool{}
 	for _, e := range out.Events {
 		if e.Kind == ref.EvDec || e.Kind == ref.EvInc || e.Kind == ref.EvWrite {
